@@ -33,7 +33,7 @@ def cmd_eq(w, actual_line, expected):
     already withheld before the step) or a tuple (node, child, command, sub, payload)."""
     from mysensors.message import Message
     if not isinstance(expected, tuple):
-        return w.eq(actual_line, expected)
+        return C.line_eq(w, actual_line, expected)
     if isinstance(actual_line, tuple):
         return w.eq(actual_line, expected)
     try:
@@ -157,10 +157,10 @@ def step(versions, shapes, P, combos, checks, only=None, hexshapes=False, ota_mo
                     w.check(n == 0, f"event callback fired for a message without effect[{tag}]")
                 else:
                     w.check(n <= 1, f"event callback fired {n}x[{tag}]")
-                post_snap = C.snap_gateway(g.gw)
+                post_snap = reported(g.gw)
                 for fields, snap in calls:
                     w.check(w.eq(fields, msg), f"event callback got other fields[{tag}]")
-                    w.check(w.eq(snap[0], post_snap[0]),
+                    w.check(w.eq(reported_of_snap(snap), post_snap),
                             f"event callback fired before the state reflected the message[{tag}]")
             if "reply" in checks:
                 if is_wake and len(expected) > 0:
@@ -202,6 +202,18 @@ def step(versions, shapes, P, combos, checks, only=None, hexshapes=False, ota_mo
                                 f"command parked for a node that is not sleeping[{tag}]")
                 C.check_inv(w, g)
     return fn
+
+
+def reported(gw):
+    """What the nodes reported (the persisted projection), as the callback should see it."""
+    return tuple((k, C.snap_persisted(s)) for k, s in gw.sensors.items())
+
+
+def reported_of_snap(snap):
+    out = []
+    for k, s in snap[0]:
+        out.append((k, s[:7] + (s[8],)))
+    return tuple(out)
 
 
 def version_stub(text):
